@@ -74,7 +74,10 @@ def main(ctx, replay=None):
         sched.write_data_module(insts[sc], scr[sc])
         if ctx.tier == "quick" and sc == "uniaxial":
             continue                                   # quick: generic + isotropic exhaustively; uniaxial by traces/replay
-        res = must_ok(run_tlc("TaskScheduler", mc_cfg, scr[sc], workers=16, timeout=3000, coverage=False))
+        # thorough: <= 3 requested keys exhaustively for the generic and the isotropic instance (12 M + 1 M states); the e1 = e2 instance,
+        # whose <= 3-key exploration alone took 25 minutes, stays at <= 2 keys
+        cfg_here = "Sched_mc2.cfg" if (ctx.tier == "thorough" and sc == "uniaxial") else mc_cfg
+        res = must_ok(run_tlc("TaskScheduler", cfg_here, scr[sc], workers=16, timeout=3000, coverage=False))
         ctx.add_tlc(res)
         if res.distinct < 1000:
             raise MachineryError(f"scheduler model for {sc} explored only {res.distinct} states")
